@@ -27,6 +27,9 @@ pub fn run_model(m: &J, inputs: &[J]) -> J {
         let mut padded = ctx.clone();
         padded.set_entry(&Name::from("zz"), Value::Number(FeelNumber::from_i128(9)));
         padded.set_entry(&Name::from("unrelated input"), Value::String("x".into()));
+        // ... and so must an entry named like the invoked element itself (say, an earlier result passed back together
+        // with the inputs): an element is not in its own requirement closure
+        padded.set_entry(&Name::from(name), Value::Number(FeelNumber::from_i128(777)));
         row2.push(enc_value(&me.evaluate_invocable(name, &padded)));
       }
       obs.push(row);
